@@ -25,6 +25,8 @@ import (
 	"go.opentelemetry.io/collector/component"
 	"go.opentelemetry.io/collector/config/configretry"
 	"go.opentelemetry.io/collector/config/configtelemetry"
+	"go.opentelemetry.io/collector/connector"
+	"go.opentelemetry.io/collector/connector/forwardconnector"
 	"go.opentelemetry.io/collector/consumer"
 	"go.opentelemetry.io/collector/consumer/consumererror"
 	"go.opentelemetry.io/collector/exporter"
@@ -44,6 +46,10 @@ type Cfg struct {
 	Batch int   `json:"batch"`
 	Cap   int64 `json:"cap"`
 	Retry bool  `json:"retry"`
+	// Chain: two pipelines linked by the real forward connector (specs/PipelineChain, extra E07):
+	// receiver -> batch/1 (Batch) -> forward -> batch/2 (Batch2) -> exporter
+	Chain  bool `json:"chain"`
+	Batch2 int  `json:"batch2"`
 }
 
 type Step struct {
@@ -203,14 +209,29 @@ func runScript(sc Script) []Ev {
 		ExportersFactories:  map[component.Type]exporter.Factory{typ: ef},
 		AsyncErrorChannel:   make(chan error, 16),
 	}
+	pipes := pipelines.Config{pipeline.NewID(pipeline.SignalLogs): {
+		Receivers: []component.ID{id}, Processors: []component.ID{component.NewID(bf.Type())}, Exporters: []component.ID{id}}}
+	if sc.Cfg.Chain {
+		b1, b2 := component.NewIDWithName(bf.Type(), "1"), component.NewIDWithName(bf.Type(), "2")
+		bcfg2 := bf.CreateDefaultConfig().(*batchprocessor.Config)
+		bcfg2.SendBatchSize, bcfg2.SendBatchMaxSize, bcfg2.Timeout = uint32(sc.Cfg.Batch2), uint32(sc.Cfg.Batch2), 15*time.Millisecond
+		set.ProcessorsConfigs = map[component.ID]component.Config{b1: bcfg, b2: bcfg2}
+		ff := forwardconnector.NewFactory()
+		fid := component.NewID(ff.Type())
+		set.ConnectorsConfigs = map[component.ID]component.Config{fid: ff.CreateDefaultConfig()}
+		set.ConnectorsFactories = map[component.Type]connector.Factory{ff.Type(): ff}
+		pipes = pipelines.Config{
+			pipeline.NewIDWithName(pipeline.SignalLogs, "in"):  {Receivers: []component.ID{id}, Processors: []component.ID{b1}, Exporters: []component.ID{fid}},
+			pipeline.NewIDWithName(pipeline.SignalLogs, "out"): {Receivers: []component.ID{fid}, Processors: []component.ID{b2}, Exporters: []component.ID{id}},
+		}
+	}
 	scfg := service.Config{
 		Telemetry: telemetry.Config{
 			Logs:    telemetry.LogsConfig{Level: zapcore.FatalLevel, Encoding: "console", OutputPaths: []string{"stderr"}, ErrorOutputPaths: []string{"stderr"}},
 			Metrics: telemetry.MetricsConfig{Level: configtelemetry.LevelNone},
 		},
 		Extensions: extensions.Config{},
-		Pipelines: pipelines.Config{pipeline.NewID(pipeline.SignalLogs): {
-			Receivers: []component.ID{id}, Processors: []component.ID{component.NewID(bf.Type())}, Exporters: []component.ID{id}}},
+		Pipelines:  pipes,
 	}
 	ctx := context.Background()
 	srv, err := service.New(ctx, set, scfg)
